@@ -23,6 +23,7 @@ structure CInst where
   vac : Option Vac.St := none
   chkOp : Option Nat := none
   crtOps : List (Nat × Nat) := []      -- (op, call time)
+  startDue : Option Nat := none        -- a Start succeeded: by then the instance leads or follows (its first attempt is over)
   deriving Repr, Inhabited
 
 structure State where
@@ -99,30 +100,35 @@ def step (s : State) (te : TEv) : R State :=
     | some p => do
     let t := te.t
     let s ← advanceAll p s t
+    match s.insts.find? (fun x => match x.startDue with | some d => decide (d < t) && x.cfg.key == s.key | none => false) with
+    | some x => reject s!"instance {x.cfg.id} was started but by {repr x.startDue} (now {t}) it neither leads nor follows: its first acquisition attempt left it a candidate without a watch loop"
+    | none =>
     match ev with
     | .api n i .start => pure { s with starts := (n, i) :: s.starts }
     | .apiRet n i r =>
       if s.starts.any (· == (n, i)) then
         let s := { s with starts := s.starts.filter (· != (n, i)) }
         match s.get i, r with
-        | some x, .ok => pure (s.set { x with running := true, flag := false, vac := none, chkOp := none, crtOps := [] })
+        -- (the first attempt is a Create, for a takeover-enabled instance possibly followed by a Get and an Update; whatever
+        --  its outcome the instance then leads or follows - a candidate that does neither has no watch loop and never checks)
+        | some x, .ok => pure (s.set { x with running := true, flag := false, vac := none, chkOp := none, crtOps := [], startDue := some (t + 4 * p + 2000000) })
         | _, _ => pure s
       else pure s
     | .api _ i .stop | .api _ i (.stopctx _ _ _ _) | .cancelCtx i =>
       match s.get i with
-      | some x => pure (s.set { x with running := false, vac := none })
+      | some x => pure (s.set { x with running := false, vac := none, startDue := none })
       | none => pure s
     | .crash i | .partition i _ =>
       match s.get i with
-      | some x => pure (s.set { x with cut := true, vac := none })
+      | some x => pure (s.set { x with cut := true, vac := none, startDue := none })
       | none => pure s
     | .flag i _ il _ _ =>
       match s.get i with
       | none => pure s
       | some x =>
         if x.cfg.key ≠ s.key then pure s
-        else if il then pure (s.set { x with flag := true, vac := none })
-        else pure (s.set (follow s { x with flag := false } t))
+        else if il then pure (s.set { x with flag := true, vac := none, startDue := none })
+        else pure (s.set (follow s { x with flag := false, startDue := none } t))
     | .call op i kind key _ _ =>
       if key ≠ s.key then pure s else
       let s := { s with ops := (op, i, kind) :: s.ops }
